@@ -191,31 +191,35 @@ def parseDecLit (s : Bytes) : Option (Nat × Int) :=
         else some (mant, (digitsVal ep 0 : Int) - fp.length)
       else none
 
-inductive NumRes (α : Type) where
-  | val (v : α)
-  | notNum
-  | unmodelled (why : String)
-
-/-- `ParseInt(s, 0, 64)` then `ParseFloat(s, 64)`. -/
-def parseNum {α : Type} (A : Arith α) (s : Bytes) : NumRes α :=
+/-- A decimal-only reading of `strconv.ParseFloat(s, 64)` on a literal token (no sign can occur:
+    `+`/`-` split tokens), for instances that bring their own conversion `ofDec m e` of the decimal
+    `m·10^e` (`none` = out of range): `inf`, `infinity`, `nan` in any case, `digits[.digits][e digits]`;
+    hexadecimal floats are declared unmodelled.  (The exact rational instance and the native-`Float`
+    cross-check instance use it; the IEEE instance uses the modelled `F64.parseFloat` instead.) -/
+def decParse {α : Type} (ofDec : Nat → Int → Option α) (inf nan : α) (s : Bytes) : NumRes α :=
   let low := s.map lowerB
+  if low = [105, 110, 102] || low = [105, 110, 102, 105, 110, 105, 116, 121] then .val inf
+  else if low = [110, 97, 110] then .val nan
+  else if low.take 2 = [48, 120] then
+    if low.contains 112 then .unmodelled "hexfloat" else .notNum
+  else match parseDecLit s with
+  | some (m, e) =>
+    match ofDec m e with
+    | some v => .val v
+    | none => .notNum         -- ParseFloat reports a range error; the token is rejected
+  | none => .notNum
+
+/-- `ParseInt(s, 0, 64)` then `ParseFloat(s, 64)` (`compileToken`, numeric literal).  Underscores in a
+    numeric spelling (`1_000`: accepted by both Go parsers under the `underscoreOK` rule) are outside
+    the modelled `ParseInt` and declared unmodelled. -/
+def parseNum {α : Type} (A : Arith α) (s : Bytes) : NumRes α :=
   match s with
   | [] => .notNum
   | c :: _ =>
     if (isDigitB c || c = 46) && s.contains 95 then .unmodelled "underscore"
     else match parseIntLit s with
     | some v => .val (A.ofInt v)
-    | none =>
-      if low = [105, 110, 102] || low = [105, 110, 102, 105, 110, 105, 116, 121] then .val A.inf
-      else if low = [110, 97, 110] then .val A.nan
-      else if low.take 2 = [48, 120] then
-        if low.contains 112 then .unmodelled "hexfloat" else .notNum
-      else match parseDecLit s with
-      | some (m, e) =>
-        match A.ofDec m e with
-        | some v => .val v
-        | none => .notNum         -- ParseFloat reports a range error; the token is rejected
-      | none => .notNum
+    | none => A.parseFloat s
 
 /-- What a literal token denotes (`compileToken`, `typeLiteral` cases); the outer `Except`
     carries `ErrTokenizerNumeric` / unmodelled spellings. -/
@@ -281,7 +285,8 @@ structure Prim (α : Type) where
   nan : α
   inf : α
   ofInt : Int → α
-  ofDec : Nat → Int → Option α
+  /-- `strconv.ParseFloat(s, 64)` on a literal token -/
+  parseFloat : Bytes → NumRes α
   add : α → α → α
   sub : α → α → α
   mul : α → α → α
@@ -339,7 +344,7 @@ def unOf {α : Type} (P : Prim α) (code : Bytes) (x : α) : α :=
   else P.fn code x
 
 def arithOf {α : Type} (P : Prim α) : Arith α :=
-  { zero := P.zero, ofInt := P.ofInt, ofDec := P.ofDec, inf := P.inf, nan := P.nan,
+  { zero := P.zero, ofInt := P.ofInt, parseFloat := P.parseFloat, inf := P.inf, nan := P.nan,
     bin := binOf P, un := unOf P }
 
 /-! ### parser.go -/
